@@ -220,6 +220,17 @@ _C01_RULE = ("requests `compress <entry> K stranded join reduce <table>`: k-mer 
              "hash map's index order is read back from the implementation and handed to the model. Non-trivial = at least two nodes, one "
              "with >= 2 k-mers.")
 
+def _c03_tags(toks, impl):
+    t = ["req=" + toks[1], "K=" + toks[2], "stranded=" + toks[3]]
+    if toks[1] == "graph":
+        n = 0 if toks[4] == "-" else toks[4].count(",") + 1
+        t.append("nodes=%s" % ("0" if n == 0 else "1" if n == 1 else "2-5" if n < 6 else "6+"))
+        t.append("valid=" + ("all" if toks[6] == "*" else "subset"))
+        if "f" in (impl.split("|")[0] if "|" in impl else ""):
+            t.append("has-flipped-edge")
+    return t
+
+
 PROPS = {
     "C07": {
         "lean_modules": ["Dbg.Props.C07"],
@@ -424,5 +435,21 @@ PROPS = {
         "rule": _C01_RULE + " C02 is judged on tables whose extensions all resolve (the property's hypothesis).",
         "trusted_base": ["as C01"],
         "assumptions": ["join predicate symmetric (both shipped specs are)", "extensions reference only present k-mers"],
+    },
+    "C03": {
+        "lean_modules": ["Dbg.Props.C03"],
+        "theorems": ["Graph.findLink_sound", "Graph.searchKmer_sound", "Graph.searchKmer_complete", "Graph.findLink_exts_irrelevant"],
+        "partial": ["edges_symmetric, edges_eq_observed ((K+1)-mers of the reads), pruning exactness (three functions), seqOfPath_kmers, "
+                    "maxPath_walk: executable predicates evaluated on the crate's answers; theorems not yet written; max_path_beam is not modelled"],
+        "n_quick": 3000, "n_thorough": 200000,
+        "nontrivial": lambda toks, impl: impl != "panic" and (toks[1] != "graph" or toks[4].count(",") >= 1), "tags": _c03_tags,
+        "rule": "requests: `graph K stranded nodes probes valid scores walk` on graphs produced by the real pipeline (filter -> prune -> compress -> "
+                "finish) from the structured read-set generator: all edge lists, find_link for terminal / internal / random k-mers in both "
+                "directions, get_valid_exts with all-valid or a random validity set, max_path with random integer scores 0..5 and solid "
+                "flags, sequence_of_path of the best path and of a random walk along reported edges; `prune K stranded sharded table all`: "
+                "both pruning functions with a random censored quarter; `pipe K stranded thr reads`: the pipeline end to end with overlap, "
+                "symmetry and adjacency-set = (K+1)-mers-of-the-reads checked. Non-trivial = graph with >= 2 nodes, or a prune/pipe request.",
+        "trusted_base": ["BoomHashMap::get is exact on distinct keys (node ends of a valid graph are distinct)", "scores are small integers, exactly representable as f32"],
+        "assumptions": ["pruning slices sorted by key (what filter_kmers + sort deliver)"],
     },
 }
